@@ -15,6 +15,7 @@ import (
 	"github.com/ipfs/go-datastore"
 	logging "github.com/ipfs/go-log/v2"
 	cidlink "github.com/ipld/go-ipld-prime/linking/cid"
+	"github.com/ipni/go-libipni/announce"
 	"github.com/ipni/go-libipni/dagsync"
 	"github.com/libp2p/go-libp2p/core/peer"
 
@@ -27,7 +28,8 @@ type Config struct {
 	Cap      int     `json:"cap"`      // MaxAsyncConcurrency; 0 = unlimited
 	ChainLen int     `json:"chainlen"` // advertisements available per publisher
 	IdleTTL  int     `json:"idle_ttl_ms,omitempty"`
-	V        Variant `json:"variant"` // which source variant the mirror follows (detected by Probe)
+	Filter   bool    `json:"filter,omitempty"` // the receiver has an allow-peer filter (deny/allow/rej/relay decisions)
+	V        Variant `json:"variant"`          // which source variant the mirror follows (detected by Probe)
 }
 
 // Decision: one choice of the scheduler.
@@ -38,6 +40,9 @@ type Config struct {
 //	rm  p        RemoveHandler(p)
 //	go  t [fail] thread t (model tid) runs to its next yield point; fail: the sync it is
 //	             about to run fails (the publisher answers 500 for the head block)
+//	deny p / allow p   the allow-peer policy is changed for publisher p (Config.Filter)
+//	rej p c      Announce(head c of p) while the policy rejects p: must be a no-op
+//	relay p c    a peer that is not allowed announces head c of p: must be a no-op
 //	try t        thread t, whose next operation the model says blocks, is let go anyway: it
 //	             must be seen blocked on the mutex / semaphore (no model step)
 //	sleep ms     real time passes (idle-cleaner scenario); then RemoveHandler(p) is used
@@ -64,6 +69,10 @@ func (d Decision) String() string {
 		return fmt.Sprintf("go%d", d.T)
 	case "try":
 		return fmt.Sprintf("try%d", d.T)
+	case "deny", "allow":
+		return fmt.Sprintf("%s%d", d.K, d.P)
+	case "rej", "relay":
+		return fmt.Sprintf("%s%d.%d", d.K, d.P, d.C)
 	case "sleep":
 		return fmt.Sprintf("sleep%d.%d", d.P, d.Ms)
 	}
@@ -110,6 +119,7 @@ type Run struct {
 	DS   datastore.Batching
 
 	pubOf map[peer.ID]int
+	deny  []atomic.Bool // allow-peer policy per publisher (Config.Filter)
 
 	arrivals chan *arrival
 	early    []*arrival  // arrivals of woken-up threads seen while waiting for another one
@@ -159,6 +169,21 @@ func goid() uint64 {
 	}
 	id, _ := strconv.ParseUint(s[:i], 10, 64)
 	return id
+}
+
+var strangerOnce sync.Once
+var stranger peer.ID
+
+// a peer that is none of the publishers (never allowed by the filter)
+func strangerID() peer.ID {
+	strangerOnce.Do(func() {
+		id, err := peer.IDFromPrivateKey(poolKey(100))
+		if err != nil {
+			panic(err)
+		}
+		stranger = id
+	})
+	return stranger
 }
 
 func goroutineGone(id uint64) bool {
@@ -216,8 +241,17 @@ func NewRun(cfg Config) *Run {
 	}
 	r.DS = syncdrv.NewDS()
 	lsys := syncdrv.MkLinkSystem(r.DS)
+	r.deny = make([]atomic.Bool, cfg.NPub)
+	rcv := dagsync.RecvAnnounce("")
+	if cfg.Filter {
+		// publishers are allowed unless denied at the moment; any other peer is rejected
+		rcv = dagsync.RecvAnnounce("", announce.WithAllowPeer(func(id peer.ID) bool {
+			i, ok := r.pubOf[id]
+			return ok && !r.deny[i].Load()
+		}))
+	}
 	opts := []dagsync.Option{
-		dagsync.RecvAnnounce(""),
+		rcv,
 		dagsync.BlockHook(func(p peer.ID, c cid.Cid, _ dagsync.SegmentSyncActions) { r.yieldAt(YHook, p, c) }),
 		dagsync.HttpTimeout(10 * time.Second),
 	}
@@ -341,7 +375,12 @@ func (r *Run) watcherIdle() {
 	a := r.earlyW
 	r.earlyW = nil
 	if a == nil {
+		nf := len(r.Failures)
 		a = r.waitFor(fmt.Sprintf("the watcher receiving announcement %v", d), func(a *arrival) bool { return a.point == YWatchNext })
+		if a == nil && len(r.Failures) > nf && r.Failures[len(r.Failures)-1].Kind == "watchdog" {
+			r.Failures[len(r.Failures)-1] = Failure{Kind: "announcement-dropped",
+				Desc: fmt.Sprintf("Announce(head %d of publisher %d) returned nil, the publisher is allowed and the head was never delivered before, but receiver.Next never returned it: no sync, no event", d.C, d.P)}
+		}
 	}
 	if a == nil {
 		return
@@ -588,9 +627,53 @@ func (r *Run) Do(d Decision) {
 		r.M.Publish(d.P)
 		r.Pubs[d.P].SetHead(r.M.Pubhead[d.P])
 		r.emit(fmt.Sprintf("Publish %d", d.P), Yield{})
+	case "deny":
+		r.deny[d.P].Store(true)
+	case "allow":
+		r.deny[d.P].Store(false)
+	case "rej", "relay":
+		// an announcement the allow filter rejects: Announce returns nil, nothing reaches
+		// the watcher, nothing is remembered
+		if !r.Cfg.Filter || (d.K == "rej" && !r.deny[d.P].Load()) {
+			r.abort("script", "%s needs the allow filter (and a denied publisher)", d.K)
+			return
+		}
+		pub := r.Pubs[d.P]
+		ai := pub.AddrInfo()
+		if d.K == "relay" {
+			ai.ID = strangerID()
+		}
+		done := make(chan error, 1)
+		go func() { done <- r.Sub.Announce(r.ctx, pub.Ads[d.C-1], ai) }()
+		select {
+		case err := <-done:
+			if err != nil {
+				r.abort("announce", "Announce (rejected by the filter) returned %v", err)
+				return
+			}
+		case <-time.After(Watchdog):
+			r.abort("watchdog", "Announce (rejected by the filter) did not return")
+			return
+		}
+		r.emit(fmt.Sprintf("AnnRejected %d %d", d.P, d.C), Yield{})
+		// had it been let through, it is in the receiver's queue now and an idle watcher
+		// shows up at watch:next at once
+		if r.M.Threads[0].PC == WNext && r.parked[0] == nil && r.annOut == nil {
+			select {
+			case a := <-r.arrivals:
+				r.raw(a, -1)
+				r.parked[0] = a
+				r.abort("rejected-announcement-delivered", "an announcement of head %d of publisher %d that the allow filter rejects reached the watcher (%s)", d.C, d.P, a.point)
+			case <-time.After(3 * time.Millisecond):
+			}
+		}
 	case "ann":
 		if r.annOut != nil {
 			r.abort("script", "announce while another announcement is in the receiver")
+			return
+		}
+		if r.Cfg.Filter && r.deny[d.P].Load() {
+			r.abort("script", "ann for a denied publisher (use rej)")
 			return
 		}
 		dd := d
